@@ -1,6 +1,13 @@
 /* Monitor-invariant harnesses over src/expand.c (DESIGN 1.4), same method as h_compress.c. */
 #include "verif.h"
 #include "src/expand.c"
+#include "c12_undef.h"
+/* C12: what "the guard holds" means in this monitor model */
+int g_single;                                 /* single-threaded phase (init/uninit of a run: no other thread exists) */
+extern int g_held, g_task;
+int verif_lock_ok(int guard) { return g_single || g_held || (guard == C12_SCHED_OR_READER_READ && g_task == 6 /* T_INPUT: tail_offs read by its only writer */) ||
+         (guard == C12_SCHED_OR_TOKEN && g_task == 1 /* T_PARSE: the parser automaton belongs to the token holder while parse() runs */); }
+
 
 /* ---------------- objects of other translation units */
 unsigned num_worker, bs100k; bool ultra, eof;
@@ -434,6 +441,7 @@ void h_init(void)
   in_slots = total_in_slots; out_slots = total_out_slots; work_units = num_worker;       /* primary_thread() prologue */
   { unsigned l; V_ASSUME(l >= 1 && l <= 9); bs100k = l; }
   { uintmax_t a, b, c; head_offs = a; tail_offs = b; reord_offs = c; unsigned e; eof_missing = e; bool p, q; parsing_done = p; parse_token = q; struct detached_bitstream d; parser_bs = d; }
+  g_single = 1;                          /* init() runs in primary_thread() before any other thread of the run exists (process.primary_prologue) */
   init();
   V_ASSERT(head_offs == 0 && tail_offs == 0 && eof_missing == 0 && !parsing_done && parse_token && reord_offs == 0, "init(): offsets zero, parser idle, whatever the previous operand left");
   V_ASSERT(parser_bs.offset == 0 && parser_bs.live == 0 && parser_bs.buff == 0 && !parser_bs.eof && parser_bs.pos.major == 0 && parser_bs.pos.minor == 0, "init(): parser starts at bit 0 of the data after the stream header");
